@@ -12,6 +12,12 @@ Line-protocol front end of the C06 model.
   operations; the driver runs it on a fixed input with a fixed interpretation).
 * `C06 internal NAME` → `ok safe=B memo=a,b|- scratch=c|-` : verdict of `safeInternal` on the named
   program with element-internal cells and the attribute names of its memo cells / scratch buffers.
+* `C06 history NAME EV…` → `ok safe=B cells=c,… TOK…` : runs `Effects.runHistory` / `Effects.callI` on the named
+  program with element-internal cells, from a fresh element, over the events `c:FIELD:WAVELENGTH:GRID` (a call
+  with a wavefront of these abstract values) and `s:I:X` (parameter `I` set to `X`).  One token per event: `s` for
+  a parameter change; for a call `h<bits>f<bit>` — `cellHit` of every memo cell of the program (in the order of
+  `cells=`) in the state `runHistory` reached before the call, and whether the result of `callI` in that state
+  equals the result of `callI` on a fresh element with the current parameters (`history_independent`).
 * `C06 denote-family FAMILY ARG… @ X1 @ X2 …` → `ok par=lin|conj|mixed expect=lin|conj Y1 Y2 …` : the term of the
   family is built **by `Elements.familyTerm`** (the Lean schema the theorems `family_parity` /
   `family_semilinear` speak about) from the arguments, and evaluated exactly at Gaussian dyadic rationals (`OpIR.CDy`: every float is one) on every
@@ -91,6 +97,34 @@ def showAttr : Attr → String
 def demoSem (op : Nat) (args : List Int) : Int := args.foldl (fun acc a => 31 * acc + a) (op : Int)
 def demoIn : InVal := ⟨5, 3, 7, 11⟩
 
+/-- interpretation of the opaque operations for histories: polynomial hashes (injective enough) -/
+def histSem : ISem :=
+  { s1 := fun f a => 1000003 * (f : Int) + 31 * a + 7,
+    s2 := fun f a b => 1000003 * (f : Int) + 8191 * a + 131 * b + 11 }
+
+def parseEvent? (s : String) : Option Event :=
+  match s.splitOn ":" with
+  | ["c", f, w, g] =>
+    match parseInt? f, parseInt? w, parseInt? g with
+    | some f, some w, some g => some (.call ⟨f, w, 0, g⟩)
+    | _, _, _ => none
+  | ["s", i, x] =>
+    match parseNat? i, parseInt? x with
+    | some i, some x => some (.setParam i x)
+    | _, _ => none
+  | _ => none
+
+/-- token of event number `k` of the history `evs`, for program `p` -/
+def historyToken (p : IProg) (evs : List Event) (k : Nat) : String :=
+  match evs[k]? with
+  | some (.call v) =>
+    let E := runHistory histSem p (EState.fresh fun _ => 0) (evs.take k)
+    let hits := (memoCells p).map fun c => showBool (cellHit p E v c)
+    let same := (callI histSem p E v).1 == (callI histSem p (EState.fresh E.params) v).1
+    "h" ++ String.join hits ++ "f" ++ showBool same
+  | some (.setParam _ _) => "s"
+  | none => "?"
+
 def step (st : St) : List String → St × String
   | ["effects", name] =>
     match HcipyVerif.Elements.programByName name with
@@ -105,6 +139,14 @@ def step (st : St) : List String → St × String
       let sh := fun (l : List String) => if l.isEmpty then "-" else ",".intercalate l
       (st, s!"ok safe={showBool (safeInternal p)} memo={sh memo} scratch={sh scratch}")
     | none => (st, "bad-op")
+  | "history" :: name :: evToks =>
+    match HcipyVerif.Elements.internalByName name, evToks.mapM parseEvent? with
+    | some (p, _, _), some evs =>
+      let cells := memoCells p
+      let cs := if cells.isEmpty then "-" else ",".intercalate (cells.map toString)
+      let toks := (List.range evs.length).map (historyToken p evs)
+      (st, s!"ok safe={showBool (safeInternal p)} cells={cs} {" ".intercalate toks}")
+    | _, _ => (st, "bad-op")
   | "denote-family" :: fam :: rest =>
     match HcipyVerif.Elements.Family.ofString? fam, splitAt rest with
     | some f, argToks :: inputs =>
